@@ -67,6 +67,14 @@ Definition dims3 (m : mesh) : option (nat * nat * nat) :=
   | _ => None
   end.
 
+(* the side-car file `<file>.subregions.json` after _to_vtk, given what was at that name before:
+   written when save_subregions and (the mesh has subregions or a side-car already exists there)
+   -- with the saved field's subregions, the empty dictionary when it has none; otherwise untouched *)
+Definition sidecar_after (prior : option (list (string * region))) (save_sub : bool)
+           (sb : list (string * region)) : option (list (string * region)) :=
+  if save_sub && (negb (length sb =? 0)%nat || match prior with Some _ => true | None => false end)
+  then Some sb else prior.
+
 (* the interval of a vertex list that holds x: first j with v_j <= x < v_(j+1) *)
 Fixpoint find_interval (vs : list Q) (x : Q) : option nat :=
   match vs with
